@@ -177,7 +177,7 @@ static bool g_routes_all = true;
 static std::set<std::string> g_routes;
 static bool on(const std::string& r) { return g_routes_all || g_routes.count(r); }
 
-static void account_expected(const std::string& key, const Bar& want, const Mat& m, double thr_oracle, int dim_max) {
+static void account_expected(int n_points, const Bar& want, const Mat& m, double thr_oracle, int dim_max) {
   bool ge1 = false, finite = false, top = false;
   for (auto& i : want) {
     if (i.dim >= 1) ge1 = true;
@@ -194,8 +194,18 @@ static void account_expected(const std::string& key, const Bar& want, const Mat&
     for (int i = 0; i < m.n; ++i) for (int j = 0; j < i; ++j) mn = std::min(mn, m.at(i, j));
     if (thr_oracle < mn) vf::stats().add("cfg.threshold_below_smallest_distance");
   }
-  if (dim_max > m.n - 2) vf::stats().add("cfg.dim_max_clamped");
-  (void)key;
+  if (dim_max > n_points - 2) vf::stats().add("cfg.dim_max_clamped");
+}
+
+// The route the property names, run next to the independent oracle. Field_Zp builds its inverse table in O(p^2) and
+// refuses p > 46337, so this route is only run for the small moduli.
+static void cross_check_simplex_tree_route(const Mat& m, double thr_oracle, const Cfg& c, const Bar& want) {
+  if (c.p > 13) { vf::stats().add("oracle.simplex_tree_route_skipped_large_modulus"); return; }
+  Bar st = st_barcode(m, thr_oracle, c.p, c.dim_max);
+  vf::stats().add("ev.transitions");
+  vf::stats().add("oracle.simplex_tree_route_runs");
+  if (st != want)
+    vf::mismatch("C11:oracle_disagreement:simplex_tree_route_vs_column_reduction", "st " + str(st) + " ref " + str(want));
 }
 
 // one case on a dense dissimilarity (optionally given as points as well)
@@ -204,12 +214,8 @@ static void run_dense_case(const std::string& cs, const Mat& m, const std::vecto
   Resolved th = resolve_thr(c.thr_tok, m);
   g_thr_kind = th.oracle == INF ? "none" : "finite";
   Bar want = ref_barcode(m, th.oracle, c.p, c.dim_max);
-  Bar st = st_barcode(m, th.oracle, c.p, c.dim_max);
-  vf::stats().add("ev.transitions");
-  vf::stats().add("oracle.simplex_tree_route_runs");
-  if (st != want)
-    vf::mismatch("C11:oracle_disagreement:simplex_tree_route_vs_column_reduction", "st " + str(st) + " ref " + str(want));
-  account_expected(cs, want, m, th.oracle, c.dim_max);
+  cross_check_simplex_tree_route(m, th.oracle, c, want);
+  account_expected(m.n, want, m, th.oracle, c.dim_max);
   if (th.oracle == INF && m.n >= 2) {
     // enclosing radius: beyond it the complex is a cone; count how often it actually cuts something
     double r = INF;
@@ -218,11 +224,39 @@ static void run_dense_case(const std::string& cs, const Mat& m, const std::vecto
   }
   Expect e = split_expect(want, m.n, c.dim_max);
   unsigned p = (unsigned)c.p;
+  bool compressed_ok = true;
+#if VF_FORM != 1
+  if (m.n == 1) {
+    // One point = an empty vector of distances. The compressed matrices take the address of element 0 of that vector
+    // (ripser.h init_rows); run it in a forked child first so that a sanitizer stop gets its own class.
+    static std::string one_point_probe;  // the probe does not depend on threshold / dim_max / modulus: fork once
+    if (one_point_probe.empty()) {
+      one_point_probe = vf::probe_range(0, 1, [&](size_t) {
+#if VF_FORM == 2
+        LowerM probe = make_lower(m);
+#else
+        UpperM probe = make_upper(m);
+#endif
+        return probe.size() == 1 ? 'k' : 's';
+      });
+      if (one_point_probe.empty()) one_point_probe = "!";
+    }
+    const std::string& r = one_point_probe;
+    vf::stats().add("probe.compressed_matrix_of_one_point." + std::string(r == "k" ? "ok" : "stopped"));
+    if (r != "k") {
+      vf::mismatch(std::string("C11:sanitizer_stop:compressed_") + (VF_FORM == 2 ? "lower" : "upper") +
+                       "_matrix_of_one_point:element_0_of_empty_distance_vector",
+                   "Compressed_distance_matrix(std::vector&&) with an empty vector (1 point): probe result '" + r + "'");
+      compressed_ok = false;  // the routes through that matrix are skipped for this case, the others still run
+    }
+  }
+#endif
 #if VF_FORM == 1
   if (on("auto:full")) compare("auto:full", run_auto(make_full(m), c.dim_max, th.code, p), e);
   if (on("ripser:full")) compare("ripser:full", run_ripser(make_full(m), c.dim_max, th.code, p), e);
-  (void)pts;
+  (void)pts; (void)compressed_ok;
 #elif VF_FORM == 2
+  if (compressed_ok) {
   if (on("auto:lower")) compare("auto:lower", run_auto(make_lower(m), c.dim_max, th.code, p), e);
   if (on("ripser:lower")) compare("ripser:lower", run_ripser(make_lower(m), c.dim_max, th.code, p), e);
   if (pts && on("auto:euclid")) {
@@ -234,9 +268,10 @@ static void run_dense_case(const std::string& cs, const Mat& m, const std::vecto
     compare("help2:b128:dense", run_help2<U128, R::Bitfield_encoding>(make_lower(m), c.dim_max, th.code, p), e);
     compare("help2:cns128:dense", run_help2<U128, R::Cns_encoding>(make_lower(m), c.dim_max, th.code, p), e);
   }
+  }
 #else
-  if (on("auto:upper")) compare("auto:upper", run_auto(make_upper(m), c.dim_max, th.code, p), e);
-  if (on("ripser:upper")) compare("ripser:upper", run_ripser(make_upper(m), c.dim_max, th.code, p), e);
+  if (compressed_ok && on("auto:upper")) compare("auto:upper", run_auto(make_upper(m), c.dim_max, th.code, p), e);
+  if (compressed_ok && on("ripser:upper")) compare("ripser:upper", run_ripser(make_upper(m), c.dim_max, th.code, p), e);
   if (on("auto:sparse")) compare("auto:sparse", run_auto(make_sparse_thr(m, th.code), c.dim_max, th.code, p), e);
   if (on("help2:sparse")) {
     compare("help2:b64:sparse", run_help2<U64, R::Bitfield_encoding>(make_sparse_thr(m, th.code), c.dim_max, th.code, p), e);
@@ -255,12 +290,8 @@ static void run_graph_case(const std::string& cs, const Mat& m, const Cfg& c) {
   Resolved th = resolve_thr(c.thr_tok, m);
   g_thr_kind = "edge_list";
   Bar want = ref_barcode(m, INF, c.p, c.dim_max);
-  Bar st = st_barcode(m, INF, c.p, c.dim_max);
-  vf::stats().add("ev.transitions");
-  vf::stats().add("oracle.simplex_tree_route_runs");
-  if (st != want)
-    vf::mismatch("C11:oracle_disagreement:simplex_tree_route_vs_column_reduction", "st " + str(st) + " ref " + str(want));
-  account_expected(cs, want, m, INF, c.dim_max);
+  cross_check_simplex_tree_route(m, INF, c, want);
+  account_expected(m.n, want, m, INF, c.dim_max);
   if (m.has_missing()) vf::stats().add("cfg.edge_list_with_absent_edges");
   Expect e = split_expect(want, m.n, c.dim_max);
   unsigned p = (unsigned)c.p;
@@ -268,6 +299,68 @@ static void run_graph_case(const std::string& cs, const Mat& m, const Cfg& c) {
   compare("help2:b64:edge_list", run_help2<U64, R::Bitfield_encoding>(make_sparse_explicit(m), c.dim_max, th.code, p), e);
   compare("help2:b128:edge_list", run_help2<U128, R::Bitfield_encoding>(make_sparse_explicit(m), c.dim_max, th.code, p), e);
   compare("help2:cns128:edge_list", run_help2<U128, R::Cns_encoding>(make_sparse_explicit(m), c.dim_max, th.code, p), e);
+  vf::end_case();
+}
+
+// the converting constructors (one form built from another): every entry must be the caller's d(i,j), and the converted
+// matrix must give the same intervals
+template <class Dst>
+static char entries_match(const Dst& d, const Mat& m) {
+  if ((int)d.size() != m.n) return 's';
+  for (int i = 0; i < m.n; ++i) for (int j = 0; j < m.n; ++j)
+    if (i != j && d(i, j) != (T)m.at(i, j)) return 'v';
+  return 'k';
+}
+static void conversion_result(const std::string& name, char r) {
+  vf::stats().add("ev.transitions");
+  vf::stats().add("conversion." + name + (r == 'k' ? ".ok" : ".bad"));
+  if (r == 'k') return;
+  std::string what = r == '!' ? "sanitizer_stop_or_crash" : r == 'v' ? "wrong_entries" : r == 's' ? "wrong_size" : "exception";
+  vf::mismatch("C11:matrix_conversion:" + name + ":" + what, std::string(T_name) + " probe result '" + std::string(1, r) + "'");
+}
+static void run_convert_case(const std::string& cs, const Mat& m, const Cfg& c) {
+  vf::set_case(cs);
+  Resolved th = resolve_thr(c.thr_tok, m);
+  g_thr_kind = th.oracle == INF ? "none" : "finite";
+  Bar want = ref_barcode(m, th.oracle, c.p, c.dim_max);
+  account_expected(m.n, want, m, th.oracle, c.dim_max);
+  Expect e = split_expect(want, m.n, c.dim_max);
+  unsigned p = (unsigned)c.p;
+#if VF_FORM == 1
+  { LowerM a = make_lower(m); FullM d(a); char r = entries_match(d, m); conversion_result("full_from_lower", r);
+    if (r == 'k') compare("auto:full_from_lower", run_auto(std::move(d), c.dim_max, th.code, p), e); }
+  { UpperM a = make_upper(m); FullM d(a); char r = entries_match(d, m); conversion_result("full_from_upper", r);
+    if (r == 'k') compare("auto:full_from_upper", run_auto(std::move(d), c.dim_max, th.code, p), e); }
+#elif VF_FORM == 2
+  { FullM a = make_full(m); LowerM d(a); char r = entries_match(d, m); conversion_result("lower_from_full", r);
+    if (r == 'k') compare("auto:lower_from_full", run_auto(std::move(d), c.dim_max, th.code, p), e); }
+  { UpperM a = make_upper(m); LowerM d(a); char r = entries_match(d, m); conversion_result("lower_from_upper", r);
+    if (r == 'k') compare("auto:lower_from_upper", run_auto(std::move(d), c.dim_max, th.code, p), e); }
+#else
+  // the upper layout built from another matrix: probed in a forked child first
+  for (int from = 0; from < 2; ++from) {
+    std::string name = from == 0 ? "upper_from_full" : "upper_from_lower";
+    // one forked probe per (matrix, source form): the conversion does not depend on threshold / dim_max / modulus
+    static std::map<std::string, std::string> probed;
+    std::string key = name + "|" + std::to_string(m.n) + "|" + m.lower_str();
+    auto it = probed.find(key);
+    if (it == probed.end()) {
+      std::string r = vf::probe_range(0, 1, [&](size_t) {
+        if (from == 0) { FullM a = make_full(m); UpperM d(a); return entries_match(d, m); }
+        LowerM a = make_lower(m); UpperM d(a); return entries_match(d, m);
+      });
+      vf::stats().add("probe.forked_conversions");
+      it = probed.emplace(key, r.empty() ? "!" : r).first;
+    }
+    const std::string& r = it->second;
+    conversion_result(name, r[0]);
+    if (r == "k") {
+      if (from == 0) { FullM a = make_full(m); compare("auto:" + name, run_auto(UpperM(a), c.dim_max, th.code, p), e); }
+      else { LowerM a = make_lower(m); compare("auto:" + name, run_auto(UpperM(a), c.dim_max, th.code, p), e); }
+    }
+  }
+  { UpperM a = make_upper(m); SparseM d(a, th.code); compare("auto:sparse_from_upper", run_auto(std::move(d), c.dim_max, th.code, p), e); }
+#endif
   vf::end_case();
 }
 
@@ -365,10 +458,11 @@ int main(int argc, char** argv) {
     part = kv["part"];
     if (kv["T"] != T_name) { fprintf(stderr, "replay for value type %s run on %s\n", kv["T"].c_str(), T_name); }
     Cfg c{kv["thr"], atoi(kv["dim"].c_str()), atoi(kv["p"].c_str())};
-    if (part == "matrix" || part == "graph") {
+    if (part == "matrix" || part == "graph" || part == "convert") {
       int n = atoi(kv["n"].c_str());
       Mat m = mat_from_lower(n, parse_doubles(kv["d"]));
       if (part == "matrix") run_dense_case(a.replay, m, nullptr, c);
+      else if (part == "convert") run_convert_case(a.replay, m, c);
       else run_graph_case(a.replay, m, c);
     } else if (part == "euclid") {
       std::vector<std::vector<int>> pts;
@@ -394,11 +488,11 @@ int main(int argc, char** argv) {
   long long idx = 0;
   auto mine = [&]() { bool r = (idx % a.nshards) == a.shard; ++idx; return r; };
 
-  if (part == "matrix" || part == "graph") {
+  if (part == "matrix" || part == "graph" || part == "convert") {
     // every symmetric matrix on n points with entries in vals (graph: every entry may also be absent)
-    int n = (int)a.geti("n", 4);
     std::vector<double> vals = parse_doubles(a.get("vals", "1,2,3"));
     if (part == "graph") vals.insert(vals.begin(), INF);
+    for (int n : vf::parse_ints(a.get("n", "4"))) {
     int npairs = n * (n - 1) / 2;
     std::vector<size_t> digit(npairs, 0);
     for (;;) {
@@ -411,6 +505,7 @@ int main(int argc, char** argv) {
         for_cfgs(g, n, [&](const Cfg& c) {
           std::string cs = base + cfg_str(c);
           if (part == "matrix") run_dense_case(cs, m, nullptr, c);
+          else if (part == "convert") run_convert_case(cs, m, c);
           else run_graph_case(cs, m, c);
           vf::stats().sample(cs, 3);
         });
@@ -419,10 +514,12 @@ int main(int argc, char** argv) {
       while (k < npairs && ++digit[k] >= vals.size()) { digit[k] = 0; ++k; }
       if (k == npairs) break;
     }
+    }
   } else if (part == "euclid") {
     // every subset (ordered: every ordered tuple of distinct points) of n points of the G x G integer grid
-    int n = (int)a.geti("n", 3), G = (int)a.geti("grid", 4), ordered = (int)a.geti("ordered", 0);
+    int G = (int)a.geti("grid", 4), ordered = (int)a.geti("ordered", 0);
     int NP = G * G;
+    for (int n : vf::parse_ints(a.get("n", "3"))) {
     std::vector<int> sel(n, 0);
     std::function<void(int)> rec = [&](int k) {
       if (k == n) {
@@ -452,6 +549,7 @@ int main(int argc, char** argv) {
       }
     };
     rec(0);
+    }
   } else if (part == "rp2") {
     // barycentric subdivision of the 6-vertex RP^2 (31 points, 90 edges) under relabelings of the 6 base vertices and
     // edge weights by type; as an explicit edge list and as a dense matrix (absent edges at 3, threshold 2)
@@ -465,19 +563,25 @@ int main(int argc, char** argv) {
         std::string base = pre + ";perm=" + vf::join(perm) + ";w=" + std::to_string(wa) + "," + std::to_string(wb) + "," + std::to_string(wc);
         vf::stats().add("inputs.rp2_variants");
         Mat me = rp2_barycentric(perm, wa, wb, wc, INF), md = rp2_barycentric(perm, wa, wb, wc, 3);
-        for (int d : vf::parse_ints(a.get("dims", "1,2"))) for (int p : g.mods) {
+        for (int d : vf::parse_ints(a.get("dims", "1,2"))) {
+          Bar b2 = ref_barcode(me, INF, 2, d);
+          for (int p : g.mods) {
           Cfg ce{"max", d, p}, cd{"2", d, p};
-          Bar b2 = ref_barcode(me, INF, 2, d), bp = ref_barcode(me, INF, p, d);
-          if (b2 != bp) vf::stats().add("expected.barcode_depends_on_modulus");
+          if (p != 2 && b2 != ref_barcode(me, INF, p, d)) vf::stats().add("expected.barcode_depends_on_modulus");
           run_graph_case(base + ";form=edge_list" + cfg_str(ce), me, ce);
           run_dense_case(base + ";form=dense" + cfg_str(cd), md, nullptr, cd);
           vf::stats().sample(base + ";form=dense" + cfg_str(cd), 2);
+          }
         }
       }
     } while (std::next_permutation(perm.begin(), perm.end()));
   } else if (part == "big") {
     run_big_part(a, g, pre, idx);
+  } else {
+    fprintf(stderr, "unknown part %s\n", part.c_str());
+    vf::stats().add("ev.incomplete");
   }
+  vf::stats().add("ev.incomplete", 0);  // every enumeration above runs to its end: no cap, no deadline
   vf::finish();
   return 0;
 }
@@ -493,12 +597,8 @@ static void run_big_case(const std::string& cs, int N, const std::vector<int>& i
   g_thr_kind = "edge_list";
   // oracle on the vertices that carry edges (all other vertices are isolated: one (0,0,inf) each)
   Bar want = ref_barcode(m, INF, c.p, c.dim_max);
-  Bar st = st_barcode(m, INF, c.p, c.dim_max);
-  vf::stats().add("ev.transitions");
-  vf::stats().add("oracle.simplex_tree_route_runs");
-  if (st != want)
-    vf::mismatch("C11:oracle_disagreement:simplex_tree_route_vs_column_reduction", "st " + str(st) + " ref " + str(want));
-  account_expected(cs, want, m, INF, c.dim_max);
+  cross_check_simplex_tree_route(m, INF, c, want);
+  account_expected(N, want, m, INF, c.dim_max);
   Expect e = split_expect(want, N, c.dim_max, N - m.n);
   int dm = std::min(c.dim_max, N - 2);
   int bits = log2up_(N) * (dm + 2) + log2up_(c.p - 1);
